@@ -301,7 +301,9 @@ pub fn c19(tier: &str, seed: u64, known: &[String]) -> Report {
     let n = if tier == "thorough" { 20_000 } else { 1500 };
     for i in 0..n {
         let rgb = rgb_at(i * 3, &mut rng);
-        for k in [None, Some(Kind::D65), Some(Kind::D50), Some(Kind::Adobe)] {
+        // the profiles in an order in which every ordered pair of {None, D65, D50, Adobe} is adjacent once (a helper that keeps
+        // state between calls, e.g. a cache keyed too coarsely, shows up only for particular consecutive calls)
+        for k in [None, Some(Kind::D65), Some(Kind::D50), Some(Kind::Adobe), None, Some(Kind::D50), None, Some(Kind::Adobe), Some(Kind::D65), None, Some(Kind::D65), Some(Kind::Adobe), Some(Kind::D50), Some(Kind::D65)] {
             helper_rx!(rep, rgb, k, Lab, Luv, Xyy, Srgb, Argb, Hlab, Lchlab, Lchuv, Hcl, OkLab, OkLch, Rec709, Rec2020, Rec2100, Xyz);
             helper_rx!(rep, Cymk::from(rgb), k, Lab, Srgb, Xyz);
             helper_rx!(rep, Hsl::from(rgb), k, Luv, OkLab);
